@@ -1004,20 +1004,19 @@ class Steward():
         data['version'] = "HTTP/{0}.{1}".format(*self.requestant.version)
         data['method'] = self.requestant.method
 
-        pathSplits = urlsplit(unquote(self.requestant.url))
-        path = pathSplits.path
-        data['path'] = path
+        # use the already validated and split requestant url parts. Splitting
+        # the unquoted url again raises ValueError on e.g. '//%5B/x'
+        data['path'] = self.requestant.path
 
-        query = pathSplits.query
+        query = self.requestant.query
         qargs = dict()
         qargs, query = httping.updateQargsQuery(qargs, query)
         data['qargs'] = qargs
 
-        fragment = pathSplits.fragment
-        data['fragment'] = fragment
+        data['fragment'] = self.requestant.fragment
 
         data['headers'] = list(self.requestant.headers.items())  # copy.copy(self.requestant.headers)  # make copy
-        data['body'] = self.requestant.body.decode('utf-8')
+        data['body'] = self.requestant.body.decode('utf-8', errors='replace')
         data['data'] = copy.copy(self.requestant.data)  # make copy
 
         msg = self.responder.build(status=200, data=data)
